@@ -1426,3 +1426,435 @@ func RT(rc *RC) {
 		rc.S.Ok("RT", key, pos, fmt.Sprintf("%d comparison methods check the destination against Bool", len(all)))
 	}
 }
+
+// =============================================================================================
+// Rules of round 13 (seeds RDC*).
+
+// LN: the products are the textbook sums of products, not their conjugated variants. No
+// conjugating BLAS routine (?dotc, ?gerc) is called by the library: Inner is sum a_i*b_i,
+// Outer is x_i*y_j. Expected count zero; the number of BLAS calls seen is reported.
+var lnConj = regexp.MustCompile(`^[CZ](dotc|gerc)$`)
+var lnBlas = regexp.MustCompile(`^[SDCZ](dot|dotu|dotc|ger|geru|gerc|gemv|gemm)$`)
+
+func LN(rc *RC) {
+	rc.S.Declare("LN", "no conjugating BLAS routine: the linear-algebra gateways call ?dotu/?geru (and the real routines), never ?dotc/?gerc, in any element-type arm", 8)
+	n := 0
+	for _, fi := range rc.P.SortedFuncs() {
+		if fi.Pkg != rc.P.Root || fi.Decl == nil || fi.Decl.Body == nil || strings.HasSuffix(fi.File, "_test.go") {
+			continue
+		}
+		k := 0
+		ast.Inspect(fi.Decl.Body, func(m ast.Node) bool {
+			c, ok := m.(*ast.CallExpr)
+			if !ok {
+				return true
+			}
+			s, ok := c.Fun.(*ast.SelectorExpr)
+			if !ok || !lnBlas.MatchString(s.Sel.Name) {
+				return true
+			}
+			n++
+			k++
+			key := fmt.Sprintf("%s#%s%d", fi.Key, s.Sel.Name, k)
+			if lnConj.MatchString(s.Sel.Name) {
+				rc.S.Viol("LN", key, rc.P.Pos(c.Pos()), fmt.Sprintf("%s conjugates one operand: the product is sum conj(a_i)*b_i (x_i*conj(y_j)), not the sum of products the property states", s.Sel.Name)).Firm = true
+			} else {
+				rc.S.Ok("LN", key, rc.P.Pos(c.Pos()), s.Sel.Name)
+			}
+			return true
+		})
+	}
+	rc.S.Count("LN.blas-calls", n)
+}
+
+// F10: AP.Init installs what it is given. GobDecode hands it the decoded shape and strides and
+// sets the data order afterwards: a stride computed inside Init is computed for the receiver's
+// previous order (seed RDC14b; seed R9C01b made the same mistake in GobDecode itself).
+func F10(rc *RC) {
+	rc.S.Declare("F10", "AP.Init stores the shape and the strides it is given and derives neither", 1)
+	key := "tensor.(*AP).Init"
+	fi := anchor(rc, "F10", key)
+	if fi == nil {
+		return
+	}
+	pos := rc.P.Pos(fi.Decl.Pos())
+	c := ir.NewCanon(rc.P.Fset, fi.Pkg.TypesInfo, ir.Options{ParamNames: true, KeepNames: true, NoSubst: true})
+	txt := ir.Render(c.Func(fi.Decl))
+	var bad []string
+	if !strings.Contains(txt, "$r.shape = $shape") {
+		bad = append(bad, "the shape argument is not stored")
+	}
+	if !strings.Contains(txt, "$r.strides = $strides") {
+		bad = append(bad, "the strides argument is not stored: strides derived here are derived for the data order the receiver had before the decoder set the decoded one")
+	}
+	if strings.Contains(txt, "alcStrides") {
+		bad = append(bad, "strides are computed inside Init, from an order flag the caller sets only afterwards")
+	}
+	if len(bad) > 0 {
+		rc.S.Viol("F10", key, pos, strings.Join(bad, "; ")).Sig = "derives"
+	} else {
+		rc.S.Ok("F10", key, pos, "stores both arguments")
+	}
+}
+
+// F11: addMask installs its argument on every path. GobDecode relies on addMask(nil) to drop a
+// mask the receiver had before; a path that returns without the store keeps it.
+func F11(rc *RC) {
+	rc.S.Declare("F11", "addMask stores its argument into the receiver's mask on every returning path (an empty argument clears a previous mask)", 1)
+	key := "tensor.(*Dense).addMask"
+	fi := anchor(rc, "F11", key)
+	if fi == nil {
+		return
+	}
+	pos := rc.P.Pos(fi.Decl.Pos())
+	c := ir.NewCanon(rc.P.Fset, fi.Pkg.TypesInfo, ir.Options{ParamNames: true, KeepNames: true, NoSubst: true})
+	paths, ok := ir.EnumPaths(c.Func(fi.Decl), 200)
+	if !ok {
+		rc.S.Undec("F11", key, pos, "too many paths")
+		return
+	}
+	var bad []string
+	for _, p := range paths {
+		if p.Exit == "panic" {
+			continue
+		}
+		set := false
+		for _, st := range p.Steps {
+			if (st.Kind == "store" || st.Kind == "let") && st.Target == "$r.mask" {
+				set = true
+			}
+		}
+		if !set {
+			bad = append(bad, fmt.Sprintf("the path [%s] returns without storing the mask: a mask the receiver had before stays", strings.Join(p.Guards, " && ")))
+		}
+	}
+	if len(bad) > 0 {
+		rc.S.Viol("F11", key, pos, strings.Join(bad, "; ")).Sig = "path without store"
+	} else {
+		rc.S.Ok("F11", key, pos, "every returning path stores the mask")
+	}
+}
+
+// SW: Slice and SliceInto cut the same window. Both hand AP.S the length of the storage window
+// the new offsets are relative to; for a view with gaps the element count is smaller than
+// that. The first argument of the AP.S call is the same term in both.
+var swCall = regexp.MustCompile(`\.AP\.S\(`)
+
+func SW(rc *RC) {
+	rc.S.Declare("SW", "Slice and SliceInto pass the same window length to AP.S (sibling agreement on the first argument)", 1)
+	arg := func(key string) (string, string, bool) {
+		fi := rc.P.Func(key)
+		if fi == nil {
+			return "", "-", false
+		}
+		c := ir.NewCanon(rc.P.Fset, fi.Pkg.TypesInfo, ir.Options{ParamNames: true, KeepNames: true})
+		out := ""
+		walkNodes(c.Func(fi.Decl), func(n *ir.Node) {
+			if loc := swCall.FindStringIndex(n.Head); loc != nil && out == "" {
+				if args, _ := callArgsAt(n.Head, loc[1]); len(args) > 0 {
+					out = args[0]
+				}
+			}
+		})
+		return out, rc.P.Pos(fi.Decl.Pos()), out != ""
+	}
+	a, pos, ok1 := arg("tensor.(*Dense).Slice")
+	b, _, ok2 := arg("tensor.(*Dense).SliceInto")
+	key := "tensor.(*Dense).Slice~SliceInto"
+	switch {
+	case !ok1 || !ok2:
+		rc.S.Ok("SW", key, pos, "one of the two no longer calls AP.S directly: not compared")
+	case a != b:
+		rc.S.Viol("SW", key, pos, fmt.Sprintf("Slice passes %s to AP.S, SliceInto passes %s: for a parent that is itself a view with gaps the two differ, and the window of the new view is cut at the wrong end", a, b)).Sig = a + " vs " + b
+	default:
+		rc.S.Ok("SW", key, pos, "both pass "+a)
+	}
+}
+
+// SR: a second header is not a result. A value obtained from ShallowClone() shares the
+// operand's storage and mask; handing it back as the result of an operation gives the caller a
+// "new" tensor whose in-place use changes the operand. Only ShallowClone itself returns one.
+var srDef = regexp.MustCompile(`\.ShallowClone\(\)`)
+
+func SR(rc *RC) {
+	rc.S.Declare("SR", "a second header is not a result: no function returns (or assigns to its result) a value it obtained from ShallowClone()", 5)
+	n := 0
+	for _, fi := range rc.P.SortedFuncs() {
+		if fi.Pkg != rc.P.Root || fi.Decl == nil || fi.Decl.Body == nil || strings.HasSuffix(fi.File, "_test.go") || fi.Obj.Name() == "ShallowClone" {
+			continue
+		}
+		c := ir.NewCanon(rc.P.Fset, fi.Pkg.TypesInfo, ir.Options{ParamNames: true, KeepNames: true, NoSubst: true})
+		tree := c.Func(fi.Decl)
+		if !srDef.MatchString(ir.Render(tree)) {
+			continue
+		}
+		n++
+		seconds := map[string]bool{}
+		walkNodes(tree, func(nd *ir.Node) {
+			if (nd.Kind == "let" || nd.Kind == "store") && srDef.MatchString(nd.Value) && lpVar.MatchString(nd.Target) {
+				seconds[nd.Target] = true
+			}
+		})
+		var bad []string
+		walkNodes(tree, func(nd *ir.Node) {
+			for s := range seconds {
+				if nd.Kind == "ret" {
+					for _, v := range splitArgs(nd.Value) {
+						if v == s || strings.HasPrefix(v, s+".(") {
+							bad = append(bad, "returns "+s+", a ShallowClone of an operand")
+						}
+					}
+				}
+				if (nd.Kind == "let" || nd.Kind == "store") && strings.HasPrefix(nd.Target, "$ret") && (nd.Value == s || strings.HasPrefix(nd.Value, s+".(")) {
+					bad = append(bad, fmt.Sprintf("assigns %s, a ShallowClone of an operand, to the result %s", s, nd.Target))
+				}
+			}
+		})
+		pos := rc.P.Pos(fi.Decl.Pos())
+		if len(bad) > 0 {
+			rc.S.Viol("SR", fi.Key, pos, strings.Join(uniq(bad), "; ")+": the caller receives a tensor that shares the operand's storage and mask, and any in-place use of it changes the operand").Sig = "second header returned"
+		} else {
+			rc.S.Ok("SR", fi.Key, pos, "second headers stay local")
+		}
+	}
+	rc.S.Count("SR.functions-with-second-headers", n)
+}
+
+// UP: UnsafePermute moves elements by its pattern. On every successful path through the
+// general case each loop that stores into the slices consults pattern[...]; the only case that
+// needs no consulting is rank 2, where validity and the preceding identity test leave (1, 0).
+func UP(rc *RC) {
+	rc.S.Declare("UP", "UnsafePermute permutes by its pattern: on every returning path outside the rank-2 case, every loop that stores elements of the permuted slices reads pattern[...]", 1)
+	key := "tensor.UnsafePermute"
+	fi := anchor(rc, "UP", key)
+	if fi == nil {
+		return
+	}
+	pos := rc.P.Pos(fi.Decl.Pos())
+	c := ir.NewCanon(rc.P.Fset, fi.Pkg.TypesInfo, ir.Options{ParamNames: true, KeepNames: true, NoSubst: true})
+	paths, ok := ir.EnumPaths(c.Func(fi.Decl), 4000)
+	if !ok {
+		rc.S.Undec("UP", key, pos, "too many paths")
+		return
+	}
+	elemStore := regexp.MustCompile(`\[[^\]\n]+\]\)? = `)
+	var bad []string
+	movers := 0
+	for _, p := range paths {
+		if p.Exit != "return" {
+			continue
+		}
+		g := strings.Join(p.Guards, " && ")
+		for _, st := range p.Steps {
+			if st.Kind != "loop" && st.Kind != "range" {
+				continue
+			}
+			txt := ir.Render([]*ir.Node{st})
+			if !elemStore.MatchString(txt) || strings.Contains(txt, "%seen[") && !strings.Contains(txt, "], ") {
+				continue
+			}
+			if !regexp.MustCompile(`\([%$]?\w+(?:\[[^\]\n]+\])+, [%$]?\w+(?:\[[^\]\n]+\])+\) = `).MatchString(txt) {
+				continue // not a swap of elements
+			}
+			movers++
+			if strings.Contains(txt, "$pattern[") || strings.Contains(g, "case 2") {
+				continue
+			}
+			bad = append(bad, fmt.Sprintf("on the path [%s] elements are exchanged by a loop that never reads the pattern: whatever it does is right for some patterns only", firstN(g, 300)))
+		}
+	}
+	switch {
+	case len(bad) > 0:
+		rc.S.Viol("UP", key, pos, strings.Join(uniq(bad), "; ")).Sig = "moves without the pattern"
+	case movers == 0:
+		rc.S.Ok("UP", key, pos, "no element-exchanging loop recognised (another form): not judged")
+	default:
+		rc.S.Ok("UP", key, pos, fmt.Sprintf("%d exchanging loop(s) on returning paths, each reads the pattern or is the rank-2 case", movers))
+	}
+}
+
+// IM: a masked tensor gets a masked iterator. In IteratorFromDense the single-tensor case
+// returns the masked iterator on every path on which the tensor is masked, whatever else the
+// path tests (a one-element tensor "requires no iterator" and is still masked).
+func IM(rc *RC) {
+	rc.S.Declare("IM", "IteratorFromDense: on every path that returns the plain flat iterator for a single tensor, the tensor was found not to be masked (or not to be a MaskedTensor)", 1)
+	key := "tensor.IteratorFromDense"
+	fi := anchor(rc, "IM", key)
+	if fi == nil {
+		return
+	}
+	pos := rc.P.Pos(fi.Decl.Pos())
+	_, tree := sCanon(rc, fi)
+	paths, ok := ir.EnumPaths(tree, 500)
+	if !ok {
+		rc.S.Undec("IM", key, pos, "too many paths")
+		return
+	}
+	var bad []string
+	n := 0
+	for _, p := range paths {
+		if p.Exit != "return" || !strings.HasPrefix(p.Ret, "FlatIteratorFromDense(") {
+			continue
+		}
+		n++
+		f := pathG(p)
+		notMasked := false
+		var masked, oks []string
+		for _, g := range f {
+			for _, a := range g.Atoms() {
+				if strings.HasSuffix(a, ".IsMasked()") {
+					masked = append(masked, a)
+				}
+				if a == "%ok" || strings.HasSuffix(a, "ok") {
+					oks = append(oks, a)
+				}
+			}
+		}
+		for _, a := range masked {
+			if ir.Implies(f, ir.BNot(ir.BAtom(a))) {
+				notMasked = true
+			}
+			for _, o := range oks {
+				// not a MaskedTensor, or not masked
+				if ir.Implies(f, ir.BOr(ir.BNot(ir.BAtom(o)), ir.BNot(ir.BAtom(a)))) {
+					notMasked = true
+				}
+			}
+		}
+		for _, o := range oks {
+			if ir.Implies(f, ir.BNot(ir.BAtom(o))) {
+				notMasked = true
+			}
+		}
+		if !notMasked {
+			bad = append(bad, fmt.Sprintf("the path [%s] returns the plain iterator without having found the tensor unmasked: a masked tensor on this path is walked as if every element were valid", strings.Join(p.Guards, " && ")))
+		}
+	}
+	if len(bad) > 0 {
+		rc.S.Viol("IM", key, pos, strings.Join(uniq(bad), "; ")).Sig = "plain iterator for a possibly masked tensor"
+	} else {
+		rc.S.Ok("IM", key, pos, fmt.Sprintf("%d path(s) return the plain iterator, each for a tensor found unmasked", n))
+	}
+}
+
+// WP: wrapper parity. The package-level Narrow and the method (*Dense).Narrow are the same
+// three statements; a refusal or normalisation added to one of them makes the two entry points
+// of one operation disagree.
+func WP(rc *RC) {
+	rc.S.Declare("WP", "wrapper parity: tensor.Narrow and (*Dense).Narrow are the same code up to the receiver", 1)
+	text := func(key, recv string) (string, string, bool) {
+		fi := rc.P.Func(key)
+		if fi == nil {
+			return "", "-", false
+		}
+		c := ir.NewCanon(rc.P.Fset, fi.Pkg.TypesInfo, ir.Options{ParamNames: true, KeepNames: true})
+		t := stringLit.ReplaceAllString(ir.Render(c.Func(fi.Decl)), `"…"`)
+		if recv != "" {
+			t = ir.ReplaceWord(t, recv, "$r")
+		}
+		return t, rc.P.Pos(fi.Decl.Pos()), true
+	}
+	a, pos, ok1 := text("tensor.Narrow", "$t")
+	b, _, ok2 := text("tensor.(*Dense).Narrow", "")
+	key := "tensor.Narrow~(*Dense).Narrow"
+	switch {
+	case !ok1 || !ok2:
+		rc.S.Undec("WP", key, pos, "unresolved anchor")
+	case a == b:
+		rc.S.Ok("WP", key, pos, "same code")
+	case sameSkeleton(a, b):
+		rc.S.Viol("WP", key, pos, "the two entry points of Narrow differ: "+firstDiff(a, b)).Sig = firstDiff(a, b)
+	default:
+		// one of them has statements the other lacks: a refusal or a normalisation of its own
+		rc.S.Viol("WP", key, pos, "the two entry points of Narrow are no longer the same code (one validates, clamps or normalises where the other does not): "+firstDiff(a, b)).Sig = "different statements"
+	}
+}
+
+// SA: append(s[:0], s...) is not a copy. It appends the slice onto its own array; the result
+// shares storage with s. Expected count zero; self-tested.
+func SA(rc *RC) {
+	rc.S.Declare("SA", "no self-append taken for a copy: append(s[:0], s...) returns s's own storage", 0)
+	match := func(body ast.Node) []*ast.CallExpr {
+		var out []*ast.CallExpr
+		ast.Inspect(body, func(m ast.Node) bool {
+			c, ok := m.(*ast.CallExpr)
+			if !ok || len(c.Args) != 2 || !c.Ellipsis.IsValid() {
+				return true
+			}
+			if id, ok := c.Fun.(*ast.Ident); !ok || id.Name != "append" {
+				return true
+			}
+			sl, ok := c.Args[0].(*ast.SliceExpr)
+			if !ok || sl.Low != nil && types.ExprString(sl.Low) != "0" || sl.High == nil || types.ExprString(sl.High) != "0" {
+				return true
+			}
+			if types.ExprString(sl.X) == types.ExprString(c.Args[1]) {
+				out = append(out, c)
+			}
+			return true
+		})
+		return out
+	}
+	fset := token.NewFileSet()
+	f, err := parser.ParseFile(fset, "sa.go", "package p\nfunc f(b []float64) []float64 { b = append(b[:0], b...); return b }\n", 0)
+	if err != nil || len(match(f)) != 1 {
+		rc.S.Undec("SA", "self-test", "-", "the matcher no longer recognises its built-in positive example")
+		return
+	}
+	n := 0
+	for _, fi := range rc.P.SortedFuncs() {
+		if fi.Pkg != rc.P.Root || fi.Decl == nil || fi.Decl.Body == nil || strings.HasSuffix(fi.File, "_test.go") {
+			continue
+		}
+		n++
+		for i, c := range match(fi.Decl.Body) {
+			rc.S.Viol("SA", fmt.Sprintf("%s#selfappend%d", fi.Key, i+1), rc.P.Pos(c.Pos()), fmt.Sprintf("%s appends the slice onto its own array: nothing is copied and the result shares its storage", types.ExprString(c))).Firm = true
+		}
+	}
+	rc.S.Ok("SA", "module", "-", fmt.Sprintf("%d functions scanned", n))
+}
+
+// VH: Vstack joins along axis 0 and Hstack along axis 1 (axis 0 for vectors): the axis argument
+// of their Concat calls is that constant, not a term of the rank.
+func VH(rc *RC) {
+	rc.S.Declare("VH", "Vstack concatenates along axis 0; Hstack along axis 1 (0 for vectors): the axis handed to Concat is that literal", 2)
+	call := regexp.MustCompile(`\$r\.Concat\(`)
+	for _, e := range []struct {
+		key     string
+		allowed map[string]bool
+		must    string
+	}{{"tensor.(*Dense).Vstack", map[string]bool{"0": true}, "0"}, {"tensor.(*Dense).Hstack", map[string]bool{"0": true, "1": true}, "1"}} {
+		fi := anchor(rc, "VH", e.key)
+		if fi == nil {
+			continue
+		}
+		pos := rc.P.Pos(fi.Decl.Pos())
+		_, tree := sCanon(rc, fi)
+		var bad []string
+		seen := map[string]bool{}
+		walkNodes(tree, func(n *ir.Node) {
+			txt := n.Head
+			if n.Kind == "ret" {
+				txt = "return " + n.Value
+			}
+			if loc := call.FindStringIndex(txt); loc != nil {
+				if args, _ := callArgsAt(txt, loc[1]); len(args) > 0 {
+					seen[args[0]] = true
+					if !e.allowed[args[0]] {
+						bad = append(bad, fmt.Sprintf("Concat is called with axis %s", args[0]))
+					}
+				}
+			}
+		})
+		switch {
+		case len(bad) > 0:
+			rc.S.Viol("VH", e.key, pos, strings.Join(uniq(bad), "; ")+": the stacking axis is a constant of the operation, whatever the rank of the operands").Sig = "axis term"
+		case len(seen) == 0:
+			rc.S.Ok("VH", e.key, pos, "no direct Concat call (another form): not judged")
+		case !seen[e.must]:
+			rc.S.Viol("VH", e.key, pos, "no Concat call along axis "+e.must).Sig = "axis missing"
+		default:
+			rc.S.Ok("VH", e.key, pos, "Concat along the operation's own axis")
+		}
+	}
+}
